@@ -59,7 +59,8 @@ From Coq Require Import List String Bool ZArith Permutation.
 From Thunder Require Import Lib.Json Federation.Merge Federation.Normalize Federation.Planner Federation.Executor
   Federation.NormalizeProofs Federation.PlannerProofs Federation.ExecutorProofs Federation.FedWitness
   Federation.FedBase Federation.FedSem Federation.FedPlanSem Federation.Premises Federation.NormSem
-  Federation.Transparency Federation.PlannerTotal Federation.Check06.
+  Federation.Transparency Federation.PlannerTotal Federation.Check06
+  Federation.StitchProofs Federation.Refresh Federation.RefreshProofs.
 Import ListNotations.
 Open Scope string_scope.
 
@@ -299,3 +300,201 @@ Example planner_total_nonvacuous :
   | _ => False
   end.
 Proof. vm_compute. repeat split; reflexivity. Qed.
+
+(* ---------------------------------------------------------------------------------------------------------- *)
+(** OBJECTS REACHED THROUGH A SERVICE HOP ARE MATCHED BACK TO THE RIGHT PARENT (Federation/StitchProofs.v).
+    [targets path node]: the objects at the end of [path] in the order of extractKeys' walk (depth first, left to
+    right through arrays and arrays of arrays; nulls and objects of other union members skipped).  All paths, all
+    result trees. *)
+
+(** the keys extractKeys returns are the _federation entries of the targets, in that order *)
+Theorem hop_keys_are_the_targets_keys :
+  forall path node,
+    extract_keys true path node =
+    if walk_ok true path node then mapo fed_key (targets path node) else None.
+Proof. exact StitchProofs.extract_keys_is_targets. Qed.
+Print Assumptions hop_keys_are_the_targets_keys.
+
+(** grafting = merging result i into target i, from the front: an equation that says when it succeeds, what the
+    targets become and which results are left *)
+Theorem stitching_is_pointwise_merge :
+  forall path node rs,
+    on_targets path (graft path node rs) =
+    if walk_ok false path node then merge_each (targets path node) rs else None.
+Proof. exact StitchProofs.graft_is_merge_each. Qed.
+Print Assumptions stitching_is_pointwise_merge.
+
+(** with as many results as keys: target i (whose key is key i) is merged with result i, nothing is left *)
+Theorem hop_results_matched_by_position :
+  forall path node ks rs node' rest,
+    extract_keys true path node = Some ks -> List.length rs = List.length ks ->
+    graft path node rs = Some (node', rest) ->
+    rest = [] /\
+    List.length (targets path node') = List.length ks /\
+    forall i t r, nth_error (targets path node) i = Some t -> nth_error rs i = Some r ->
+      exists t' k, nth_error (targets path node') i = Some t' /\ merge_pair t r = Some t' /\
+                   nth_error ks i = Some k /\ fed_key t = Some k.
+Proof. exact StitchProofs.positional_matching. Qed.
+Print Assumptions hop_results_matched_by_position.
+
+(** nothing but the targets changes (the tree with the content of the targets erased stays the same) *)
+Theorem stitching_changes_only_the_targets :
+  forall path node rs node' rest,
+    graft path node rs = Some (node', rest) -> skeleton path node' = skeleton path node.
+Proof. exact StitchProofs.graft_skeleton. Qed.
+Print Assumptions stitching_changes_only_the_targets.
+
+(** duplicate keys: matching is by position (above); a service that answers as a function of the key gives
+    the copies equal results *)
+Theorem duplicate_keys_get_their_own_equal_results :
+  forall (f : json -> json) path node ks node' rest i j ti tj,
+    extract_keys true path node = Some ks ->
+    graft path node (map f ks) = Some (node', rest) ->
+    nth_error (targets path node) i = Some ti -> nth_error (targets path node) j = Some tj ->
+    fed_key ti = fed_key tj ->
+    exists k, fed_key ti = Some k /\
+              nth_error (targets path node') i = merge_pair ti (f k) /\
+              nth_error (targets path node') j = merge_pair tj (f k).
+Proof. exact StitchProofs.equal_keys_equal_results. Qed.
+Print Assumptions duplicate_keys_get_their_own_equal_results.
+
+(** nulls in lists: two trees that differ only by null elements of the arrays on the way have the same targets,
+    the same keys, and graft alike *)
+Theorem nulls_in_lists_shift_nothing :
+  forall path a b,
+    strip_nulls path a = strip_nulls path b ->
+    targets path a = targets path b /\
+    extract_keys true path a = extract_keys true path b /\
+    forall rs, strip_res path (graft path a rs) = strip_res path (graft path b rs).
+Proof. exact StitchProofs.nulls_shift_nothing. Qed.
+Print Assumptions nulls_in_lists_shift_nothing.
+
+Theorem stitching_commutes_with_removing_nulls :
+  forall path node rs, graft path (strip_nulls path node) rs = strip_res path (graft path node rs).
+Proof. exact StitchProofs.graft_strip_nulls. Qed.
+Print Assumptions stitching_commutes_with_removing_nulls.
+
+(** lists of lists: only the depth-first order of the leaves matters *)
+Theorem lists_of_lists_are_walked_depth_first :
+  forall path node,
+    targets path node = flat_map (targets path) (leaves node) /\
+    (forall rep, extract_keys rep path node = concat_opt (map (extract_keys rep path) (leaves node))) /\
+    (forall rs node' rest, graft path node rs = Some (node', rest) ->
+                           graft_list (graft path) (leaves node) rs = Some (leaves node', rest)).
+Proof.
+  exact (fun path node => conj (StitchProofs.targets_leaves path node)
+                               (conj (fun rep => StitchProofs.extract_keys_leaves rep path node)
+                                     (StitchProofs.graft_leaves path node))).
+Qed.
+Print Assumptions lists_of_lists_are_walked_depth_first.
+
+(** the length guard, and the only other way a stitch can fail once extractKeys has succeeded *)
+Theorem stitch_rejects_wrong_number_of_results :
+  forall run path cur ks rs,
+    extract_keys true path (JArr cur) = Some ks -> run (Some ks) = Some rs ->
+    List.length rs <> List.length ks -> stitch true run false path cur = None.
+Proof. exact StitchProofs.stitch_length_guard. Qed.
+Print Assumptions stitch_rejects_wrong_number_of_results.
+
+Theorem stitch_fails_only_on_a_clashing_result :
+  forall run path cur ks rs,
+    extract_keys true path (JArr cur) = Some ks -> run (Some ks) = Some rs ->
+    List.length rs = List.length ks ->
+    (stitch true run false path cur = None <->
+     exists i t r, nth_error (targets path (JArr cur)) i = Some t /\ nth_error rs i = Some r /\ merge_pair t r = None).
+Proof. exact StitchProofs.stitch_fails_iff. Qed.
+Print Assumptions stitch_fails_only_on_a_clashing_result.
+
+(* ---------------------------------------------------------------------------------------------------------- *)
+(** SCHEMA REFRESHES AS LABELS (Federation/Refresh.v, RefreshProofs.v).  All label lists: any number of
+    requests, any number of refreshes, any interleaving. *)
+
+(** a request that is answered is answered with [fed_exec] of the snapshot installed at ITS begin *)
+Theorem request_uses_one_snapshot :
+  forall w pick g0 ls1 rid q ls2 ans,
+    fresh rid ls1 = true ->
+    delivered rid (gw_run w pick false (ls1 ++ LBegin rid q :: ls2) (gw_init g0)) = Some ans ->
+    ans = fed_exec w (installed g0 ls1) pick false true q.
+Proof. exact RefreshProofs.request_uses_one_snapshot. Qed.
+Print Assumptions request_uses_one_snapshot.
+
+(** ... and it is answered once it has been stepped often enough and ended *)
+Theorem request_is_answered :
+  forall w pick g0 ls1 rid q ls2 k more,
+    fresh rid ls1 = true ->
+    proj rid ls2 = (repeat (LStep rid) k ++ LEnd rid :: more)%list ->
+    steps_needed w pick (installed g0 ls1) q <= k ->
+    delivered rid (gw_run w pick false (ls1 ++ LBegin rid q :: ls2) (gw_init g0)) =
+    Some (fed_exec w (installed g0 ls1) pick false true q).
+Proof. exact RefreshProofs.request_completes. Qed.
+Print Assumptions request_is_answered.
+
+(** the answer is a function of the snapshot at the begin and of the request's own labels: refreshes after the
+    begin and the labels of other requests do not matter *)
+Theorem requests_do_not_interfere :
+  forall w pick g0 g0' ls1 ls1' rid q ls2 ls2',
+    fresh rid ls1 = true -> fresh rid ls1' = true ->
+    installed g0 ls1 = installed g0' ls1' ->
+    proj rid ls2 = proj rid ls2' ->
+    delivered rid (gw_run w pick false (ls1 ++ LBegin rid q :: ls2) (gw_init g0)) =
+    delivered rid (gw_run w pick false (ls1' ++ LBegin rid q :: ls2') (gw_init g0')).
+Proof. exact RefreshProofs.answer_depends_on_snapshot_and_own_labels. Qed.
+Print Assumptions requests_do_not_interfere.
+
+Theorem refresh_between_steps_is_invisible :
+  forall w pick g0 ls1 rid q ls2 ls2',
+    fresh rid ls1 = true ->
+    without_refreshes ls2 = without_refreshes ls2' ->
+    delivered rid (gw_run w pick false (ls1 ++ LBegin rid q :: ls2) (gw_init g0)) =
+    delivered rid (gw_run w pick false (ls1 ++ LBegin rid q :: ls2') (gw_init g0)).
+Proof. exact RefreshProofs.refresh_between_steps_is_invisible. Qed.
+Print Assumptions refresh_between_steps_is_invisible.
+
+(** only the begin of a request reads the installed planner *)
+Theorem only_begin_reads_installed_planner :
+  forall w pick c c' reqs out l,
+    (forall r q, l <> LBegin r q) -> (forall g', l <> LRefresh g') ->
+    gw_reqs (gw_step w pick false (mk_gateway c reqs out) l) = gw_reqs (gw_step w pick false (mk_gateway c' reqs out) l) /\
+    gw_out (gw_step w pick false (mk_gateway c reqs out) l) = gw_out (gw_step w pick false (mk_gateway c' reqs out) l).
+Proof. exact RefreshProofs.only_begin_reads_installed. Qed.
+Print Assumptions only_begin_reads_installed_planner.
+
+(** the variant that re-reads the installed planner during execution does NOT have the property *)
+Theorem rereading_the_planner_refuted :
+  exists w pick g0 ls rid q a,
+    ls = LBegin rid q :: tl ls /\
+    delivered rid (gw_run w pick true ls (gw_init g0)) = Some a /\
+    a <> fed_exec w g0 pick false true q /\
+    delivered rid (gw_run w pick false ls (gw_init g0)) = Some (fed_exec w g0 pick false true q).
+Proof. exact RefreshProofs.reread_refuted. Qed.
+Print Assumptions rereading_the_planner_refuted.
+
+(** the trace the harness produces (refresh held inside a request) delivers [fed_exec] at the begin *)
+Theorem refresh_trace_delivers_fed_exec :
+  forall c,
+    steps_needed (rc_world c) rpick (rc_g c) (rc_query c) <= rc_steps c ->
+    delivered 0 (gw_run (rc_world c) rpick false (refresh_trace c) (gw_init (rc_g c))) =
+    Some (fed_exec (rc_world c) (rc_g c) rpick false true (rc_query c)).
+Proof. exact RefreshProofs.refresh_trace_delivers_fed_exec. Qed.
+Print Assumptions refresh_trace_delivers_fed_exec.
+
+(** non-vacuity *)
+Example stitching_examples :
+  extract_keys true [SField "items"] dup_tree = Some [xk 1; xk 1; xk 1] /\
+  graft [SField "items"] dup_tree [xr 10; xr 20; xr 30] =
+    Some (JArr [JObj [("items", JArr [xo 1 [("x", JNum 10%Z)]; xo 1 [("x", JNum 20%Z)]])];
+                JObj [("items", JArr [xo 1 [("x", JNum 30%Z)]])]], []) /\
+  targets [SField "f"] nest_tree = [xo 1 []; xo 2 []; xo 3 []] /\
+  graft [SField "f"] nest_tree [xr 10; xr 20; xr 30] =
+    Some (JObj [("f", JArr [JArr [xo 1 [("x", JNum 10%Z)]; JNull]; JArr [];
+                            JArr [xo 2 [("x", JNum 20%Z)]; JArr [xo 3 [("x", JNum 30%Z)]]]])], []) /\
+  extract_keys false [SField "f"] nest_tree = None.
+Proof. vm_compute. repeat split; reflexivity. Qed.
+
+Example one_snapshot_nonvacuous :
+  delivered 1 (gw_run rw rpick false trace_ok (gw_init rg0)) = Some (fed_exec rw rg0 rpick false true rq1) /\
+  option_map (option_map norm) (delivered 1 (gw_run rw rpick false trace_ok (gw_init rg0))) =
+    Some (Some (JObj [("self", JObj [("p", JNum 17%Z); ("q", JNum 27%Z)])])) /\
+  delivered 2 (gw_run rw rpick false trace_ok (gw_init rg0)) = Some (fed_exec rw rg1 rpick false true rq2) /\
+  steps_needed rw rpick rg0 rq1 = 1 /\ steps_needed rw rpick rg1 rq2 = 2.
+Proof. exact RefreshProofs.one_snapshot_nonvacuous. Qed.
